@@ -232,7 +232,7 @@ func BearerAuth(name string, authenticate ScopedTokenAuthentication) runtime.Aut
 		//#nosec
 		ct, _, _ := runtime.ContentType(r.Request.Header)
 		if token == "" && (ct == "application/x-www-form-urlencoded" || ct == "multipart/form-data") {
-			token = r.Request.FormValue(accessTokenParam)
+			token = r.Request.PostFormValue(accessTokenParam)
 		}
 
 		if token == "" {
@@ -262,7 +262,7 @@ func BearerAuthCtx(name string, authenticate ScopedTokenAuthenticationCtx) runti
 		//#nosec
 		ct, _, _ := runtime.ContentType(r.Request.Header)
 		if token == "" && (ct == "application/x-www-form-urlencoded" || ct == "multipart/form-data") {
-			token = r.Request.FormValue(accessTokenParam)
+			token = r.Request.PostFormValue(accessTokenParam)
 		}
 
 		if token == "" {
